@@ -234,3 +234,12 @@ lemma("cone-nat-reachability",
           "fa == 0 or (fa == 1 and walk_h == b_h) or (fa == 2 and walk_h == b_h and walk_p == b_p)"],
       note="for every combination of no-NAT / full-cone / address-restricted / port-restricted filtering the attempt passes the "
            "introduced peer's NAT because of the puncture, and the answer passes the requester's NAT because of the attempt")
+
+# ---------------------------------------------------------------------------------------------------------------------
+# BOUNDED native stand-in (simulation on the real Community class, not a proof) for the whole-history part of the property
+native("nat-simulation", "natives/c13_nat_sim.py",
+       bound="152 configurations: old/new style x {1, 3} candidates x {1, 2} prior contacts x (4x4 NAT types across NATs + 3 same-NAT "
+             "placements); endpoint-independent mapping, filtering per type, no hairpinning, no loss or reordering",
+       functions=[f"{COM}::Community.create_introduction_response", f"{COM}::Community.on_introduction_request",
+                  f"{COM}::Community.on_introduction_response", f"{COM}::Community.on_puncture_request", f"{COM}::Community.walk_to"],
+       note="requester and introduced peer end up as verified peers of each other in every configuration")
